@@ -25,6 +25,82 @@ def build_driver(w):
     return exe, dt
 
 
+def build_trim_driver(w):
+    d = w.ext_crate("trim_driver")
+    env = dict(core.ENV)
+    env["CARGO_TARGET_DIR"] = os.path.join(w.root, "target-trim")
+    rc, out, dt = core.run_cmd(["cargo", "build", "--offline", "--quiet"], d, 1500, env=env)
+    exe = os.path.join(env["CARGO_TARGET_DIR"], "debug", "trim_driver")
+    if rc != 0 or not os.path.exists(exe):
+        raise core.Inconclusive("native trim driver does not build against the current tree: " + out[-500:])
+    return exe, dt
+
+
+def run_trim(w, out, tier, known):
+    """Prefix / suffix removal: conformance validation of the real `${x#pat}` ... expansion at solver-chosen
+    witness strings (e2/run_trim.py). Not a solver decision over all strings - see DESIGN.md C04."""
+    exe, bdt = build_trim_driver(w)
+    res_path = os.path.join(w.root, "trim.json")
+    rc, o, dt = core.run_cmd(["python3-vt", os.path.join(core.VERIF, "e2", "run_trim.py"), "--driver", exe, "--tier", tier,
+                              "--out", res_path, "--jobs", "8"], core.VERIF, 1500 if tier == "quick" else 6000)
+    core.log(o.strip()[-300:])
+    if rc != 0 or not os.path.exists(res_path):
+        out.inconclusive.append("trim validation failed to run: " + o[-300:])
+        return
+    with open(res_path) as f:
+        r = json.load(f)
+    ob = {"harness": "e2_trim_witness_validation",
+          "clause": "prefix / suffix removal deletes exactly the shortest / longest matching prefix / suffix (validated natively at "
+                    "solver-chosen witnesses: NOT a decision over all strings)",
+          "bound": "%d patterns (all sequences of <= %d items over {a, b, ?, *, [ab], [!a], \\*%s}) x 4 trim forms x z3-chosen "
+                   "strings over {a, b, c} of length <= 6 (with >= 2 matching cuts, with a match, without)"
+                   % (r["patterns"], 3 if tier == "quick" else 4, "" if tier == "quick" else ", [a-b], \\?, c"),
+          "functions": ["yash_semantics::expansion::initial::param::trim::apply", "yash_fnmatch::Pattern::find",
+                        "yash_fnmatch::Pattern::rfind", "yash_syntax::parser (word ${x#pat})"],
+          "verdict": "ok", "cases": r["cases"], "cases_with_two_or_more_cuts": r["cases_with_two_or_more_cuts"],
+          "queries": r["queries"], "solver_s": r["solver_s"], "driver_build_s": round(bdt, 1),
+          "planted_mutant_detected": r["planted_mutant_detected"]}
+    out.evaluations += r["queries"]
+    out.queries += r["queries"]
+    out.solver_s += r["solver_s"]
+    out.extra["trim_cases_validated_natively"] = r["cases"]
+    out.functions.update(ob["functions"])
+    if not r["planted_mutant_detected"]:
+        ob["verdict"] = "inconclusive"
+        out.inconclusive.append("trim validation: planted mutant (shortest/longest swapped) was not detected")
+    if r["n_disagreements"]:
+        # re-check the first cases natively before reporting (fresh driver process)
+        import subprocess
+        confirmed = []
+        for c in r["disagreements"][:10]:
+            line = "%s %s | %s" % (c["form"], c["tokens"], " ".join("%x" % ord(ch) for ch in c["string"]))
+            rr = subprocess.run([exe], input=line + "\n", capture_output=True, text=True).stdout.strip()
+            try:
+                j = json.loads(rr)
+                real = "".join(chr(x) for x in j["value"]) if j.get("ok") else None
+            except Exception:
+                real = None
+            if real != c["expected"]:
+                confirmed.append(dict(c, real=real))
+        if confirmed:
+            ob["verdict"] = "failed"
+            rdir = os.path.join(core.VERIF, "replays", PID)
+            os.makedirs(rdir, exist_ok=True)
+            rp = os.path.join(rdir, "trim_disagreements.json")
+            with open(rp, "w") as f:
+                json.dump({"property": PID, "class": "trim", "count": r["n_disagreements"], "cases": confirmed}, f, indent=1)
+            key = "trim:" + confirmed[0]["form"]
+            text = "%d cases, e.g. %s" % (r["n_disagreements"], confirmed[0].get("note") or confirmed[0])
+            if key in known:
+                out.known_hits.append((key, known[key]))
+            else:
+                out.violations.append((key, rp, text))
+        else:
+            ob["verdict"] = "inconclusive"
+            out.inconclusive.append("trim validation: disagreements did not reproduce in a fresh driver process")
+    out.obligations.append(ob)
+
+
 MATTR = "expansion::attr_fnmatch::verif_c04_attr"
 
 
@@ -53,6 +129,8 @@ def run(tier, seed, only=None):
         "class as range endpoint, undefined class names, unterminated [. [= [: inside brackets, empty [..]; a leading ^ is "
         "accepted both as complement and as literal",
         "characters above U+2FFFF and case-insensitive matching are outside the claim",
+        "prefix / suffix removal (# ## % %%) is NOT decided for all strings (regex search order has no counterpart in z3's "
+        "regular-language theory): the real ${x#pat} expansion is validated natively at solver-chosen witness strings per pattern",
     ]
     known = core.load_known(PID)
 
@@ -122,6 +200,8 @@ def run(tier, seed, only=None):
             out.inconclusive.append("%d z3 queries returned unknown" % r["unknown"])
         out.obligations.append(ob)
         out.extra["violation_classes"] = {k: len(v) for k, v in byclass.items()}
+        if not only or "trim" in only:
+            run_trim(w, out, tier, known)
         # E1 part: which expanded characters are literal for the matcher
         sess = setup_attr(w)
         res = sess.run_all([h for h in attr_harnesses(tier) if not only or h.name in only], jobs=6)
@@ -147,6 +227,21 @@ def replay(path):
     import relang
     with open(path) as f:
         d = json.load(f)
+    if d.get("class") == "trim":
+        import subprocess
+        w = core.Workspace("c04r")
+        exe, _ = build_trim_driver(w)
+        bad = 0
+        for c in d["cases"]:
+            line = "%s %s | %s" % (c["form"], c["tokens"], " ".join("%x" % ord(ch) for ch in c["string"]))
+            j = json.loads(subprocess.run([exe], input=line + "\n", capture_output=True, text=True).stdout)
+            real = "".join(chr(x) for x in j["value"]) if j.get("ok") else None
+            core.log("${x%s%s} x=%r: real=%r POSIX=%r" % (c["form"], c["pattern"], c["string"], real, c["expected"]))
+            bad += real != c["expected"]
+        if bad:
+            core.log("VIOLATION property=%s replay=%s" % (PID, path))
+            return 1
+        return 0
     w = core.Workspace("c04r")
     exe, _ = build_driver(w)
     import subprocess
